@@ -36,7 +36,8 @@ RULE = ("matrices A = U diag(s) V^H, sizes 1..8 (real and complex), U/V seeded "
         "all-equal / clustered / nearly equal (1e-12..1e-6 relative) / at the "
         "conditioning bound; pairs of equal-dimension subspaces (independent, "
         "same subspace in another basis, perturbed by 1e-8..1e-1); Hermitian PD "
-        "covariances incl. 'low rank + sigma^2 I'; diagonal updates d >= 0; "
+        "covariances incl. 'low rank + sigma^2 I' (whitening: also scaled by "
+        "1e-30..1e30); diagonal updates d >= 0; "
         "positive reals over 30 decades, dB values in [-150,150], bits per "
         "symbol 1..12.  non-trivial = (largest dimension >= 3 and complex) or a "
         "repeated / nearly repeated singular value or eigenvalue (relative gap "
